@@ -29,8 +29,6 @@ Definition mut_acc (i o : mparams) : bool :=
 
 (** C14/C15: probabilities stay in [0,1]; the scale stays positive and finite as long as it was
     within [2^-900, 2^900] *)
-Definition tame_lo : f64 := of_bits 0x07B0000000000000.   (* 2^-900 *)
-Definition tame_hi : f64 := of_bits 0x7830000000000000.   (* 2^900 *)
 Definition mut_mon (i o : mparams) : bool :=
   m_valid o &&
   (negb (fle tame_lo (m_mscale i) && fle (m_mscale i) tame_hi) || (fin (m_mscale o) && flt fzero (m_mscale o))).
